@@ -18,8 +18,9 @@ ImgWriter == Mod("img", TRUE, "i", "set", "image", 60, AllMask)
 
 TimesOf(n) == [k \in 1 .. n |-> 3 * k - 1]       \* 2, 5, 8, ...
 
+Stored0 == [photon |-> 31, charge |-> 32, pixel |-> 33, signal |-> 34, image |-> 35, scene |-> 36, data |-> 37]
 Cfg(pipe, times, start, nd, prior) ==
-  [pipe |-> pipe, times |-> times, start |-> start, nd |-> nd, prior |-> prior, imgdt |-> "uint16"]
+  [pipe |-> pipe, times |-> times, start |-> start, nd |-> nd, prior |-> prior, imgdt |-> "uint16", stored |-> Stored0]
 
 \* ---- family "subsets": every subset of the ten groups, one observer each
 SubsetPipe(S, withImg) ==
@@ -119,6 +120,21 @@ FamFlux(_z) ==
       ui \in BOOLEAN, uc \in BOOLEAN, q \in {1, 2} }   \* q/2 = quantum efficiency 0.5 or 1
 
 \* (operators with a parameter are not pre-evaluated by TLC at start-up)
+\* ---- family "storage": the load-detector model at every position of a small pipeline (C18)
+StoragePipe(pos, mask, full) ==
+  LET ld == Mod("load", TRUE, "l", "loaddet", "photon", 0, mask) IN
+  [k \in 1 .. NG |->
+     CASE k = 2  -> (IF pos = 1 THEN << ld >> ELSE << >>) \o << Mod("w1", TRUE, "x", "set", "photon", 5, AllMask) >>
+       [] k = 5  -> (IF pos = 2 THEN << ld >> ELSE << >>) \o << Mod("w2", TRUE, "y", "add", "pixel", 7, AllMask) >>
+                    \o (IF pos = 3 THEN << ld >> ELSE << >>)
+       [] k = 9  -> << ImgWriter >> \o (IF pos = 4 THEN << ld >> ELSE << >>)
+       [] k = 10 -> << Mod("last", TRUE, "o", "obs", "photon", 0, 0) >> \o (IF pos = 5 THEN << ld >> ELSE << >>)
+       [] OTHER  -> << >> ]
+PartialStored == [Stored0 EXCEPT !["photon"] = EMPTY, !["signal"] = EMPTY, !["scene"] = EMPTY]
+FamStorage(_z) ==
+  { [Cfg(StoragePipe(pos, mask, TRUE), TimesOf(n), 0, nd, NoPrior) EXCEPT !.stored = st] :
+      pos \in 1 .. 5, mask \in {-1}, n \in 1 .. MAXSTEPS, nd \in BOOLEAN, st \in {Stored0, PartialStored} }
+
 CfgSet(_z) ==
   CASE FAMILY = "subsets" -> FamSubsets(0)
     [] FAMILY = "pairs"   -> FamPairs(0)
@@ -126,6 +142,7 @@ CfgSet(_z) ==
     [] FAMILY = "writers" -> FamWriters(0)
     [] FAMILY = "faults"  -> FamFaults(0)
     [] FAMILY = "flux"    -> FamFlux(0)
+    [] FAMILY = "storage" -> FamStorage(0)
 
 MCInit == \E c \in CfgSet(0) : InitWith(c)
 MCSpec == MCInit /\ [][Next]_vars
